@@ -540,17 +540,34 @@ func runC05(r *Run, p *Prog) {
 					if afterFull {
 						continue
 					}
+					// the search ends at the full skipper; behind a reader it goes on only where that reader found
+					// nothing (its success consumed the element), and not through a test of the position (the
+					// reference idiom `t == nil && p.position != start`: malformed rather than absent)
+					posName := ""
+					if cst, ok := a.cursorT.Underlying().(*types.Struct); ok && a.posIdx >= 0 {
+						posName = "." + cst.Field(a.posIdx).Name()
+					}
 					reach, w := reachInstr(f, in, failure, func(x ssa.Instruction) bool {
 						xc, isCall := x.(*ssa.Call)
 						if !isCall || xc.Call.StaticCallee() == nil {
 							return false
 						}
-						g := origFn(xc.Call.StaticCallee())
-						if g == origFn(m.skipper) || m.tokens[g] != nil || m.typeReaders[g] {
-							return true
+						return origFn(xc.Call.StaticCallee()) == origFn(m.skipper)
+					}, func(from, to *ssa.BasicBlock) bool {
+						for _, fc := range T.edgeFactsOn(from, to) {
+							fa, fb := strip(fc.A), strip(fc.B)
+							if posName != "" && fc.Op == "NE" && (strings.Contains(fa, posName) || strings.Contains(fb, posName)) {
+								return true // the position has changed: something was consumed
+							}
+							if fc.Op == "NE" && (fb == "nil" || fb == `const:""`) && strings.HasPrefix(fa, "call:") || fc.Op == "NE" && (fa == "nil" || fa == `const:""`) && strings.HasPrefix(fb, "call:") {
+								return true
+							}
+							if fc.Op == "EQ" && fb == "nil" && strings.HasPrefix(fa, "ext(call:") && strings.HasSuffix(fa, ",1)") {
+								return true // err == nil of a node reader
+							}
 						}
-						return a.isCursorMethod(g) && g != origFn(a.next) && !isLine[g] && (a.back == nil || g != origFn(a.back))
-					}, nil)
+						return false
+					})
 					r.Ob("K11", shortName(f), "what follows a line-only layout skip is optional", c.Pos(), !reach,
 						"after a skip that stops at a tab, a line end or a comment the reader fails when the expected text does not follow at once: a mandatory token is accepted only when it stands on the same line, separated by spaces - the result depends on layout", witnessPos(p, w)...)
 				}
